@@ -39,6 +39,9 @@ func init() {
 			ruleVarSize(c)
 			rulePtrTag(c)
 			rulePtime(c)
+			// named types get the codec of their own kind; the proto codecs' bytes are documented too
+			ruleKind(c)
+			ruleProtoGrammar(c)
 		},
 	})
 }
